@@ -70,8 +70,11 @@ class C11:
             elif r < 0.6 and depth < 4:
                 out.append({"p": p, "k": "d", "m": rng.choice([0o755, 0o755, 0o555, 0o666, 0o311, 0o000, 0o700])})
                 self.layer_tree(rng, p, depth + 1, out)
-            else:
+            elif r < 0.93:
                 out.append({"p": p, "k": "f", "m": rng.choice([0o644, 0o444, 0o000, 0o755]), "c": [rng.choice([65, 0, 255])] * rng.randint(0, 2)})
+            else:
+                # a left-over named pipe (a daemon's socket behaves alike): unlinked like any other non-directory
+                out.append({"p": p, "k": "p", "m": rng.choice([0o644, 0o600])})
 
     def gen(self, rng, tier):
         cases = []
